@@ -56,6 +56,7 @@ CONSTANTS Node,          \* node ids
           EdAddPromote, EdAddNonvoter, EdPromote, EdDemote, EdRemove, EdForceRemove,  \* node sets: the user edits a ChangeConfig request may combine
           G_ConfigCommittedFirst, G_OwnTermBeforeConfig, G_PromoteAfterRound, G_NonVoterNoElection, G_StepDownWhenDemoted,
           FixD4,         \* TRUE = snapshot labelled with the configuration in force at the snapshot index (repaired)
+          FixD11,        \* TRUE = a stale log view reports entries in removed segments as not found (repaired)
           FixD5,         \* TRUE = onSnapshotTaken keeps leader.removeLTE >= log.PrevIndex (repaired)
           FixD2,         \* TRUE = leader.changeConfig caches numVoters of the NEW configuration (repaired)
           KeepHist,      \* record the sequence of events in `hist` (schedule export)
@@ -259,6 +260,11 @@ RECURSIVE StoreEntryL(_, _), LeaderChangeConfig(_, _), CheckConfigActions(_, _, 
 
 \* leader.storeEntry for one log entry e = [y, v, c, task]
 StoreEntryL(s, e) ==
+    \* storeEntry rejects everything while a transfer is in progress or once the leader is no voter any more
+    \* (also the configuration entries its own checkConfigActions derives)
+    IF s.ldr.xfer.on \/ ~s.ldr.selfVoter
+    THEN IF e.task # 0 THEN [s EXCEPT !.done = Append(@, [task |-> e.task, res |-> "inProgress", pos |-> 0])] ELSE s
+    ELSE
     LET s1 == AppendEntry(s, [t |-> s.term, y |-> e.y, v |-> e.v, c |-> e.c])
         s2 == [s1 EXCEPT !.ldr.neQ = Append(@, [i |-> Last(s1), y |-> e.y, log |-> TRUE, task |-> e.task, v |-> e.v])]
         s3 == IF e.y = "cfg" THEN LeaderChangeConfig(s2, [index |-> Last(s1), term |-> s.term, nodes |-> e.c]) ELSE s2
@@ -572,7 +578,8 @@ ReplFailed(s, j) ==
 
 \* reading index i through the replication's log view: the view thinks it holds (vprev, vlast]; indexes the
 \* leader compacted away meanwhile are in segments that were unmapped and unlinked (nil dereference)
-ViewRead(s, r, i) == IF r.vnil THEN "nil" ELSE IF i <= r.vprev THEN "notFound" ELSE IF i <= s.logPrev THEN "gone" ELSE "ok"
+\* (FixD11: log.segment() treats the broken chain as "not found" instead of dereferencing nil)
+ViewRead(s, r, i) == IF r.vnil THEN "nil" ELSE IF i <= r.vprev THEN "notFound" ELSE IF i <= s.logPrev THEN (IF FixD11 THEN "notFound" ELSE "gone") ELSE "ok"
 
 SnapReqMsg(s, j) == [kind |-> "snap", term |-> Repl(s, j).term, src |-> s.id, prev |-> 0, prevTerm |-> 0, ents |-> << >>, commit |-> 0,
                      reqLast |-> s.snapIdx, idx |-> s.snapIdx, sterm |-> s.snapTerm, cfg |-> s.snapCfg, cmds |-> s.snapCmds]
@@ -586,7 +593,7 @@ ReplWrite(s, j) ==
         pst  == IF prev # 0 /\ prev # s.snapIdx THEN ViewRead(s, r, prev) ELSE "ok"
         pipe == r.mode = "pipe"
         n    == IF pipe THEN Min(r.vlast - prev, MaxAppend) ELSE 0
-        cst  == IF n > 0 THEN (IF r.vnil THEN "nil" ELSE IF r.next <= r.vprev THEN "notFound" ELSE IF r.next <= s.logPrev THEN "gone" ELSE "ok") ELSE "ok"
+        cst  == IF n > 0 THEN (IF r.vnil THEN "nil" ELSE IF r.next <= r.vprev THEN "notFound" ELSE IF r.next <= s.logPrev THEN (IF FixD11 THEN "notFound" ELSE "gone") ELSE "ok") ELSE "ok"
     IN IF pst \in {"nil", "gone"} \/ (pst = "ok" /\ cst \in {"nil", "gone"})
        THEN [s |-> [s EXCEPT !.died = "replication"], kind |-> "died"]
        ELSE IF pst = "notFound" \/ cst = "notFound"
@@ -772,7 +779,7 @@ ReplSend(i, j) ==
 HandleAppend(j, req) ==
     LET h  == IF req.kind = "snap" THEN OnInstallSnapRequest(node[j], req) ELSE OnAppendEntriesRequest(node[j], req)
         s1 == IF h.s.state = "F" THEN ResetTimer(h.s) ELSE h.s
-    IN [s |-> Post(s1), result |-> h.result, respTerm |-> h.s.term, respLast |-> Last(h.s)]
+    IN [s |-> Post(s1), result |-> h.result, respTerm |-> h.s.term, respLast |-> IF req.kind = "snap" THEN 0 ELSE Last(h.s)]
 
 AppendReq(i, j) ==
     /\ Up(i) /\ node[i].ldr.on /\ j \in DOMAIN node[i].ldr.repl /\ Repl(node[i], j).reqs # << >>
@@ -888,11 +895,8 @@ ClientOp(n, id) ==
     /\ LET s == node[n]
        IN IF s.state = "L" /\ s.cur = "L"
           THEN /\ Last(s) < MaxLog
-               /\ (IF s.ldr.selfVoter
-                   THEN Commit([node EXCEPT ![n] = Post(StoreLogEntry(s, "upd", id, id))], rpcs, orph,
-                               [kind |-> "client", n |-> n, state |-> "L", val |-> id])
-                   ELSE Commit([node EXCEPT ![n].done = Append(@, [task |-> id, res |-> "inProgress", pos |-> 0])], rpcs, orph,
-                               [kind |-> "client", n |-> n, state |-> "L", val |-> id]))
+               /\ Commit([node EXCEPT ![n] = Post(StoreLogEntry(s, "upd", id, id))], rpcs, orph,
+                         [kind |-> "client", n |-> n, state |-> "L", val |-> id])
           ELSE Commit([node EXCEPT ![n].done = Append(@, [task |-> id, res |-> "notLeader", pos |-> 0])], rpcs, orph,
                       [kind |-> "client", n |-> n, state |-> s.state, val |-> id])
     /\ ctr' = [ctr EXCEPT !.cmds = @ + 1]
